@@ -98,8 +98,8 @@ func modelVsImpl(c *progCase, s *hx.Sub, prefix string) (*hx.Violation, bool) {
 	if got != want {
 		return hx.V(prefix+":output", "%q with %v\n   rendered %q\n   expected %q", src, c.P.Binds.Logical(), got, want), true
 	}
-	if ticks != m.Ticks {
-		return hx.V(prefix+":ticks", "%q evaluated %d tick filters, the model %d (conditions after the chosen branch must not be evaluated)", src, ticks, m.Ticks), true
+	if ticks < m.Ticks || ticks > m.TicksHi {
+		return hx.V(prefix+":ticks", "%q evaluated %d tick filters, the model %d..%d (conditions after the chosen branch must not be evaluated)", src, ticks, m.Ticks, m.TicksHi), true
 	}
 	return nil, true
 }
